@@ -513,24 +513,16 @@ func (s *clientSocket) emitBuffered() {
 
 		hasAckFunc := s.callEvent(event.handler, event.header, event.values, sendAck)
 
-		if event.header.ID != nil {
-			mu.Lock()
-			send := !hasAckFunc
-			sent, ok := ackIDs[*event.header.ID]
-			if ok && sent {
-				mu.Unlock()
-				return
-			}
-			ackIDs[*event.header.ID] = true
-			mu.Unlock()
-
-			// If there is no acknowledgement function
-			// and there is no response already sent,
-			// then send an empty acknowledgement.
-			if send {
-				s.debug.Log("Sending ack with ID", *event.header.ID)
-				s.sendAckPacket(*event.header.ID, nil)
-			}
+		// If there is no acknowledgement function
+		// and there is no response already sent,
+		// then send an empty acknowledgement.
+		//
+		// (`sendAck` sends one acknowledgement per ID. When the handler has an acknowledgement function, the
+		// acknowledgement is the handler's business: it may call the function now or later. Marking the ID as
+		// answered here would swallow that call, and leaving this method - instead of going on with the next
+		// event - would drop the rest of the buffered events and the packets waiting in the send buffer.)
+		if event.header.ID != nil && !hasAckFunc {
+			sendAck(*event.header.ID, nil)
 		}
 	}
 	s.receiveBuffer = nil
